@@ -133,6 +133,17 @@ func Generate(seed uint64, id, family string) *sdl.Program {
 				&sdl.Instance{ID: fmt.Sprintf("c%d", n), Type: reg.Name},
 				&sdl.Instance{ID: fmt.Sprintf("c%d", n+1), Type: lt.Name, Alias: "late", Contributed: true, ContribBy: fmt.Sprintf("c%d", n)},
 				&sdl.Instance{ID: fmt.Sprintf("c%d", n+2), Type: z.Name})
+			if r.p(0.6) {
+				// an eager holder that asks for the same type BEFORE the late definition exists
+				// (its name sorts in front of the registering component's)
+				kind := sdl.KIfaces
+				if r.p(0.3) {
+					kind = sdl.KIface
+				}
+				k := &sdl.Type{Name: id + "TK", Points: []*sdl.Point{{Field: "F0", Kind: kind, Iface: q, Sel: sdl.SelType, Optional: r.p(0.5)}}}
+				p.Types = append(p.Types, k)
+				p.Instances = append(p.Instances, &sdl.Instance{ID: fmt.Sprintf("c%d", n+3), Type: k.Name})
+			}
 		}
 		return p
 	case FamLarge:
